@@ -24,12 +24,6 @@ theorem modifyInstr_getElem? (l : List Instr) (i j : Nat) (f : Instr → Instr) 
     · subst h; simp [hx]
     · simp [h]
 
-/-- tracked state of `(instrument i, cid c)` -/
-def orderState (e : Eng) (i c : Nat) : Option Active :=
-  match e.instruments[i]? with
-  | some s => stateOf s.orders c
-  | none => none
-
 theorem sendRequests_fst {α : Type} (e : Eng) (toReq : α → Req) (rs : List α) :
     (sendRequests e toReq rs).1 = { e with log := e.log ++ (sendRequests e toReq rs).2.sent.map toReq } := rfl
 
